@@ -1208,6 +1208,25 @@ def check_g(ck, repo, rule="C01.g", only=None):
                     )
 
 
+def check_a_store(ck, repo):
+    """SkLearnParameters (the parameter store of the SkBase family) keeps every value as it is
+    given: clone() compares get_params of the copy with the original by identity"""
+    for ci in repo.all_classes():
+        if ci.name != "SkLearnParameters":
+            continue
+        init = ci.methods.get("__init__")
+        if init is None or init.node.args.kwarg is None:
+            continue
+        kw = init.node.args.kwarg.arg
+        for l in own_nodes(init.node):
+            if isinstance(l, ast.For) and kw in src_of(l.iter) and isinstance(l.target, ast.Tuple) and len(l.target.elts) == 2 and isinstance(l.target.elts[1], ast.Name):
+                v = l.target.elts[1].id
+                reb = [s_ for s_ in ast.walk(l) if isinstance(s_, (ast.Assign, ast.AugAssign)) and any(isinstance(t_, ast.Name) and t_.id == v for t_ in (s_.targets if isinstance(s_, ast.Assign) else [s_.target]))]
+                sets = [c_ for c_ in ast.walk(l) if isinstance(c_, ast.Call) and src_of(c_.func) == "setattr" and len(c_.args) == 3]
+                okv = not reb and len(sets) == 1 and src_of(sets[0].args[2]) == v
+                ck.verdict(okv, "C01.a", init, reb[0] if reb else (sets[0] if sets else l), "every value is stored as given (same object)", f"the value stored is not the object given ({src_of(reb[0])[:50] if reb else 'no direct setattr of the value'}): get_params returns a copy, so sklearn.base.clone refuses the estimator (its sanity check compares parameters by identity) and set_params of untouched keys changes their identity")
+
+
 def check_g_ctor(ck, repo):
     """state the constructor derives from a parameter (self.A = f(p), A not itself a
     parameter) and that other methods read: the inherited set_params only rebinds self.p,
@@ -1375,6 +1394,7 @@ def run(ck):
     check_f(ck, repo)
     check_g(ck, repo)
     check_g_ctor(ck, repo)
+    check_a_store(ck, repo)
     check_h(ck, repo)
     check_i(ck, repo)
     check_j(ck, repo)
